@@ -2,6 +2,8 @@ import PestModel.Model.Grammar
 import PestModel.Lemmas.MetaRules
 import PestModel.Lemmas.ReaderNoPanic
 import PestModel.Lemmas.ReaderAgree
+import PestModel.Lemmas.OptTotal
+import PestModel.Thm.C07Pairs
 /-!
 # C09 — the grammar front-end is total
 
@@ -17,9 +19,11 @@ panics) and kept apart from the located errors the code returns. The theorems:
 * `consume_rules_no_panic` — on pairs of that shape no panic site of `consume_rules` is reachable;
 * `frontend_no_panic` — the two together: for EVERY text the reader returns rules or a located error.
 * `unrollF_total` — the unroller's `unwrap` (empty unrolling) is unreachable for the counts the reader lets through.
+* `optimizer_no_panic` — behind the reader: on the rules it returns (any text), the seven optimizer passes and the conversion
+  to `OptimizedRule` reach none of their panic sites (`OptTotal`: the unroller leaves nothing it should have unrolled, the
+  passes around it keep that, `rule_to_optimized_rule`'s `unreachable!` cannot fire).
 
-Not covered by a theorem (sampled by the correspondence only): the panic sites of `validator.rs` / `optimizer/*.rs`
-behind the reader other than the unroller's, error rendering (C10's `render_total` is about `pest::error`), time
+Not covered by a theorem (sampled by the correspondence only): the panic sites of `validator.rs`, error rendering (C10's `render_total` is about `pest::error`), time
 bounds, and native stack depth (the recorded finding).
 -/
 namespace PestModel.C09
@@ -91,6 +95,14 @@ theorem readerP_agrees (extras : Bool) (text : PestModel.LineCol.Str) :
   | fail => rfl
   | stuck => rfl
   | fuel => rfl
+
+/-- **Behind the reader, the optimizer does not panic**: whatever rules the reader returns for a text, `optimize` (with or
+without the `list` pass) converts them — the unroller's `unwrap` and `rule_to_optimized_rule`'s `unreachable!` are unreachable. -/
+theorem optimizer_no_panic (extras : Bool) (text : PestModel.LineCol.Str) (rs : List Rule)
+    (h : PestModel.ReaderFull.readGrammar extras text = some rs) (withList : Bool) :
+    (optimizeWith extras withList rs).isSome = true := by
+  obtain ⟨_, forest, _, hr, _⟩ := (PestModel.C07Pairs.reader_exact extras text rs).1 h
+  exact PestModel.OptTotal.optimizeWith_total extras withList rs (PestModel.OptTotal.posCounts_rulesV hr)
 
 /-! non-vacuity: the pairs of `a={b}` (written out) have the shape, so the hypothesis of `consume_rules_no_panic` is met
 by a real forest. -/
